@@ -17,6 +17,7 @@ INVARIANT LawCanonFixedPoint
 INVARIANT LawBareIsOneTuple
 INVARIANT LawItemwise
 INVARIANT LawOkFromGrade
+INVARIANT LawListAnswers
 INVARIANT LawLGUnorderedMany
 INVARIANT LawLGContiguous
 INVARIANT LawLGReversal
